@@ -40,18 +40,20 @@ Fixpoint count_crlf (s : bytes) : nat :=
   | [] => O
   end.
 
-(* writeHeader: returns the bytes handed to writeString and the line count.
-   With no values nothing is written and 1 is returned (the ":\r\n" goes to a dropped builder). *)
+(* the string handed to the first writeString of writeHeader (no final CRLF) *)
+Definition wh_buffer (key : bytes) (values : list bytes) : bytes :=
+  let cl := max_header - 2 - zlen key - 2 in
+  let full := join (bs ", ") values in
+  let words := split_on 32 full in
+  drop_sp_before_crlf (wh_words (key ++ bs ": ") cl words).
+
+(* writeHeader: returns the bytes handed to writeString (two calls: the buffer, then CRLF) and
+   the line count.  With no values nothing is written and 1 is returned (the ":\r\n" goes to
+   a dropped builder). *)
 Definition write_header (key : bytes) (values : list bytes) : bytes * nat :=
   match values with
   | [] => ([], 1%nat)
-  | _ =>
-      let cl := max_header - 2 - zlen key - 2 in
-      let full := join (bs ", ") values in
-      let words := split_on 32 full in
-      let buf := wh_words (key ++ bs ": ") cl words in
-      let s := drop_sp_before_crlf buf in
-      (s ++ crlf, S (count_crlf s))
+  | _ => let s := wh_buffer key values in (s ++ crlf, S (count_crlf s))
   end.
 
 (* RFC 5322 unfolding: remove every CRLF that is immediately followed by SP or TAB.
